@@ -67,4 +67,5 @@ ba336bb C19 C10
 2d0f122 C16
 1adc0f1 C15
 82a475f C09
+c1875a2 C14
 LIST
